@@ -1,6 +1,7 @@
 package main
 
 import (
+	"os/exec"
 	"crypto/sha1"
 	"encoding/json"
 	"flag"
@@ -72,6 +73,10 @@ func main() {
 		rc := check(prop, *tier, *only, *repo, *verif, *workers, *par, seed, *dump, *verbose, *noEvidence)
 		pprof.StopCPUProfile()
 		os.Exit(rc)
+	case "replay":
+		// gosmt replay <file.json>: run the harness natively (real code, go test -overlay) on the
+		// recorded symbol values and print what it did
+		os.Exit(replayFile(prop, *repo, *verif))
 	case "check-old":
 		os.Exit(check(prop, *tier, *only, *repo, *verif, *workers, *par, seed, *dump, *verbose, *noEvidence))
 	default:
@@ -518,6 +523,7 @@ func randomModelsB(vars map[string]Sort, bounds map[string][2]float64, n int, se
 	var out []Model
 	for k := 0; k < n; k++ {
 		m := Model{}
+		prev, havePrev := 0.0, false
 		for _, v := range names {
 			switch vars[v] {
 			case SReal, SFP64, SFP32:
@@ -539,6 +545,27 @@ func randomModelsB(vars map[string]Sort, bounds map[string][2]float64, n int, se
 					}
 					x = b[0] + u*(b[1]-b[0])
 				}
+				if k%3 == 1 {
+					// corner mode: degenerate points that random sampling never hits (exact zeros,
+					// range ends, two equal symbols)
+					b, hasB := bounds[v]
+					switch next() % 6 {
+					case 0, 1, 2:
+						x = 0
+						if hasB {
+							x = b[0]
+						}
+					case 3:
+						if hasB {
+							x = b[1]
+						}
+					case 4:
+						if havePrev {
+							x = prev
+						}
+					}
+				}
+				prev, havePrev = x, true
 				if x < 0 {
 					m[v] = fmt.Sprintf("(- %v)", strconv.FormatFloat(-x, 'f', -1, 64))
 				} else {
@@ -580,4 +607,78 @@ func probeNatively(rp *Replayer, hs *HarnessSpec, ob *Obligation, all []*Harness
 		}
 	}
 	return nil
+}
+
+
+// replayFile: native re-execution of a recorded counterexample against the current tree.
+// Exit 1 when the run fails the recorded obligation (assertion failed / panic), 0 when it passes,
+// 2 when it cannot be run.
+func replayFile(file, repoDir, verifDir string) int {
+	b, err := os.ReadFile(file)
+	if err != nil {
+		fmt.Println("cannot read", file, err)
+		return 2
+	}
+	var rf struct {
+		Harness, Label, Tier string
+	}
+	if err := json.Unmarshal(b, &rf); err != nil || rf.Harness == "" {
+		fmt.Println("not a replay file:", file)
+		return 2
+	}
+	parts := strings.SplitN(rf.Harness, "_", 3)
+	if len(parts) < 3 {
+		fmt.Println("cannot derive the property from harness name", rf.Harness)
+		return 2
+	}
+	prop := parts[1]
+	tier := rf.Tier
+	if tier == "" {
+		tier = "quick"
+	}
+	ws, err := setupWorkspace(repoDir, verifDir, prop)
+	if err != nil {
+		fmt.Println("setup failed:", err)
+		return 2
+	}
+	defer ws.Cleanup()
+	ld, err := loadAll(ws, "thorough")
+	if err != nil {
+		fmt.Println("BROKEN-CHECK: cannot load the repository with harnesses:", err)
+		return 2
+	}
+	var hs *HarnessSpec
+	for _, h := range ld.Specs {
+		if h.Name == rf.Harness {
+			hs = h
+		}
+	}
+	if hs == nil {
+		fmt.Println("no such harness in the current tree:", rf.Harness)
+		return 2
+	}
+	rp := &Replayer{ws: ws, ld: ld, bins: map[string]string{}, built: map[string]error{}}
+	bin, err := rp.testBinary(hs, ld.Specs)
+	if err != nil {
+		fmt.Println(err)
+		return 2
+	}
+	abs, _ := filepath.Abs(file)
+	cmd := exec.Command(bin, "-test.run", "^TestVsymReplay$", "-test.v", "-test.timeout", "300s")
+	cmd.Dir = filepath.Join(ws.RepoDir, hs.PkgDir)
+	cmd.Env = append(os.Environ(), "VSYM_REPLAY="+abs, "VSYM_HARNESS="+hs.Name, "VERIF_TIER="+tier)
+	out, rerr := cmd.CombinedOutput()
+	so := string(out)
+	fmt.Print(so)
+	failed := strings.Contains(so, "VSYM-ASSERT-FAILED "+rf.Label+"\n") || strings.Contains(so, "VSYM-PANIC") || strings.Contains(so, "DATA RACE") || (rerr != nil && (strings.Contains(so, "panic:") || strings.Contains(so, "fatal error:")))
+	if strings.Contains(so, "VSYM-ASSUME-FAILED") && !strings.Contains(so, "VSYM-ASSERT-FAILED "+rf.Label+"\n") {
+		fmt.Println("REPLAY: the recorded values do not satisfy the harness assumptions natively")
+		return 0
+	}
+	if failed {
+		fmt.Printf("REPLAY: obligation %q of %s FAILS on the current tree\n", rf.Label, rf.Harness)
+		return 1
+	}
+	fmt.Printf("REPLAY: obligation %q of %s holds on the current tree for the recorded values\n", rf.Label, rf.Harness)
+	return 0
 }
